@@ -48,7 +48,10 @@ def _case(draw, tier, adaptive=False):
             # values inside a step are O(sqrt(dt)) off by nature, but asking for them must not disturb the trajectory)
             "outs": draw(st.sampled_from([[], [], [0.37], [1 / 3, 0.7]])),
             # adaptive kind: the initial step as a fraction of the horizon (also as long as, or longer than, the horizon)
-            "dt0": draw(st.sampled_from([0.5, 0.5, 0.1, 1.0, 2.0]))}
+            "dt0": draw(st.sampled_from([0.5, 0.5, 0.1, 1.0, 2.0])),
+            "rel_only": draw(st.sampled_from([False, False, True])),
+            # ts given as a Python list, and a Brownian motion defined on a longer interval than the one integrated over
+            "ts_list": draw(st.sampled_from([False, False, True]))}
 
 
 @st.composite
@@ -124,14 +127,14 @@ def enumerate_cases(tier):
                    "T": rnd.choice([0.5, 1.0, 0.75]), "entropy": rnd.randrange(2 ** 31 - 2),
                    "y0seed": rnd.randrange(2 ** 31), "kmax": 8 if tier == "quick" else 10,
                    "paths": 2048 if tier == "quick" else 4096, "clip": (idx + seed) % 2 == 0,
-                   "outs": [[], [0.37], [1 / 3, 0.7]][(idx + seed) % 3]}
+                   "outs": [[], [0.37], [1 / 3, 0.7]][(idx + seed) % 3], "ts_list": (idx + seed) % 4 == 1}
             if (fam, phi) == ADAPTIVE_FAMILY[nt]:
                 # the adaptive clause on every accepted cell as well (a curved family where there is one): random draws
                 # alone left e.g. (reversible_heun, adaptive, non-linear coefficients) unvisited in most runs
                 yield {"kind": "adaptive", "combo": combo, "spec": dict(spec), "t0": rnd.choice([0.0, 0.5, -1.0]),
                        "T": rnd.choice([0.5, 1.0]), "entropy": rnd.randrange(2 ** 31 - 2),
                        "y0seed": rnd.randrange(2 ** 31), "kmax": 8, "paths": 512 if tier == "quick" else 2048,
-                       "clip": False, "dt0": [0.5, 1.0, 2.0, 0.1][(idx + seed) % 4]}
+                       "clip": False, "dt0": [0.5, 1.0, 2.0, 0.1][(idx + seed) % 4], "rel_only": (idx + seed) % 2 == 0}
 
 
 def _solver_order(torchsde, sde, bm, combo):
@@ -191,20 +194,31 @@ def run_case(case):
     anl = spec["family"] == "additive_nl"
     kmax = case.get("kmax", 8)
     B = case.get("paths", 2048) // (2 if (nc or anl) else 1)
+    if case.get("ts_list"):
+        case = dict(case, T=case["T"] * 0.6, t0=case["t0"] + 0.1)     # end points with many significant bits (0.4, 0.7, ...)
     sde = sdes_closed.compile_spec(spec, B)
     y0 = sde.y0(B, case["y0seed"])
+    # purely relative tolerances (atol = 0) on a solution of small magnitude: only for families that are homogeneous in y0
+    rel_only = bool(case.get("rel_only")) and case["kind"] == "adaptive" and \
+        (spec["family"] == "linear_commuting" or (spec["family"] == "reducible" and spec.get("phi") == "exp"))
+    if rel_only:
+        y0 = y0 * 1e-3
     t0, t1 = case["t0"], case["t0"] + case["T"]
     ts = torch.tensor([t0] + [t0 + fr * case["T"] for fr in case.get("outs", [])] + [t1], dtype=torch.float64)
     # the hand-written order-1.5 reference of additive_nl needs the space-time integral U of the same path
     bm_levy = "space-time" if (anl and combo["levy"] == "none") else combo["levy"]
-    bm = torchsde.BrownianInterval(t0=t0, t1=t1, size=(B, spec["m"]), dtype=torch.float64, entropy=case["entropy"],
-                                   levy_area_approximation=bm_levy, cache_size=None)
+    pad = (0.25, 0.5) if case.get("ts_list") else (0.0, 0.0)
+    bm = torchsde.BrownianInterval(t0=t0 - pad[0], t1=t1 + pad[1], size=(B, spec["m"]), dtype=torch.float64,
+                                   entropy=case["entropy"], levy_area_approximation=bm_levy, cache_size=None)
+    if case.get("ts_list"):
+        ts = [float(x) for x in ts]
     sig = {"sde_type": combo["sde_type"], "noise_type": combo["noise_type"], "method": combo["method"],
            "grad_free": bool(combo["options"]), "family": spec["family"], "kind": case["kind"]}
     label = f"{combo['sde_type']}/{combo['noise_type']}/{combo['method']}" + ("+grad_free" if combo["options"] else "")
     labels = [label, f"family={spec['family']}" + (f":{spec['phi']}" if spec["family"] == "reducible" else ""),
               f"levy={combo['levy']}"] + (["clipped_last_step"] if case.get("clip") and case["kind"] == "ladder" else []) + \
-        (["interior_outputs_off_grid"] if case.get("outs") else [])
+        (["interior_outputs_off_grid"] if case.get("outs") else []) + \
+        (["ts_as_list_bm_on_longer_interval"] if case.get("ts_list") else [])
     opts = dict(combo["options"]) or None
     ks = list(range(3, (kmax if nc else kmax + 1)))
     if anl:
@@ -228,13 +242,16 @@ def run_case(case):
             with torch.no_grad():
                 ys = torchsde.sdeint(sde, y0, ts, bm=bm, method=combo["method"], dt=case["T"] * case.get("dt0", 0.5),
                                      adaptive=True,
-                                     rtol=tol, atol=tol, dt_min=case["T"] * 2.0 ** -12, options=opts)
+                                     rtol=tol, atol=0.0 if rel_only else tol, dt_min=case["T"] * 2.0 ** -12, options=opts)
             errs.append(err_of(ys))
         checks += 1
         fail = None
         # a gain is only required when the loosest run's error is well above what the tightest tolerance asks for
         # (otherwise every tolerance accepts the same steps and there is nothing to shrink)
         yscale = max(1.0, float(torch.sqrt((exact ** 2).sum(1).mean())))
+        if rel_only:
+            yscale = float(torch.sqrt((exact ** 2).sum(1).mean()))      # the tolerance is relative to the solution itself
+            labels.append("relative_tolerance_only")
         # tightening must not make things worse - but two errors that both lie below the tighter tolerance are ordered by
         # chance (another step sequence on the same path), not by the controller
         mono = all(b <= a * 1.10 + 1e-13 or b <= 3.0 * tol_b * yscale
